@@ -28,7 +28,7 @@ man = {
     "setup_cmd": "mkdir -p build evidence replays && python3-vt -c 'import z3' && /venv/bin/python -c 'import qce_circuit'",
     "hooks": {"guard": "QCOCIRCUITS_VERIF", "enable": "no hooks are needed: contracts are sidecars, bounded stand-ins monkey-patch inside their own process",
               "baseline_off_cmd": "cd /repo && /venv/bin/python -m pytest -ra -q -p no:cacheprovider --timeout=900 --continue-on-collection-errors",
-              "source_commits": json.load(open(os.path.join(ROOT, "known_findings.json"))).get("fix_commits", []) if os.path.exists(os.path.join(ROOT, "known_findings.json")) else [],
+              "source_commits": [],
               "add_only": True},
     "engines": [{"name": "pyvc", "path": "pyvc/", "serves_properties": [c["property_id"] for c in checks],
                  "kind_free_text": "own VC generator: real function source (inspect.getsource on every run) -> symbolic execution over ast -> z3 (cvc5/z3-4.8 fallback); sidecar contracts in contracts/; bounded run-time stand-ins in bounded/"}],
